@@ -348,7 +348,7 @@ func (g *G) reflectValue() (interface{}, string) {
 	r := g.R
 	if g.fault() {
 		g.tag("reflect:unencodable")
-		switch r.Intn(6) {
+		switch r.Intn(7) {
 		case 0:
 			return make(chan int), "chan int"
 		case 1:
@@ -361,6 +361,8 @@ func (g *G) reflectValue() (interface{}, string) {
 			return badJSON{}, "MarshalJSON returning error"
 		case 4:
 			return invalidJSON{}, "MarshalJSON returning invalid JSON"
+		case 5:
+			return rng.Pick(r, []json.RawMessage{json.RawMessage(`{"cut":[1,2`), json.RawMessage("{}\n{}"), json.RawMessage{}, json.RawMessage("\"a\nb\""), json.RawMessage(`{"a":1}}`)}), "invalid json.RawMessage"
 		default:
 			return map[string]interface{}{"a": 1, "f": func() {}}, "map with func"
 		}
@@ -386,6 +388,17 @@ func (g *G) reflectValue() (interface{}, string) {
 		s := g.Str()
 		return &s, fmt.Sprintf("*string(%q)", s)
 	case 5:
+		// pre-encoded payloads: compact, pretty-printed over several lines (LF and CRLF), padded
+		switch r.Intn(5) {
+		case 0:
+			return json.RawMessage("{\n  \"raw\": [\n    1,\n    2,\n    {\"x\": null}\n  ]\n}"), "json.RawMessage(pretty)"
+		case 1:
+			return json.RawMessage("{\r\n\t\"raw\": [1, 2],\r\n\t\"s\": \"a b\"\r\n}\r\n"), "json.RawMessage(CRLF)"
+		case 2:
+			return json.RawMessage("  \n [ 1 , \"<&>\" ]\n\n"), "json.RawMessage(padded)"
+		case 3:
+			return []json.RawMessage{json.RawMessage("{\n \"a\": 1\n}"), json.RawMessage(" 2 ")}, "[]json.RawMessage(pretty)"
+		}
 		return json.RawMessage(`{"raw":[1,2,{"x":null}]}`), "json.RawMessage"
 	case 6:
 		s := g.Str()
